@@ -243,6 +243,8 @@ func runC11(r *Report, tier string) {
 	// otherwise writes the message it judges
 	r.rule("R04.2", "(shared with C04) the verification gate succeeds only for alg equal or alg absent with external data, and writes nothing.")
 	checkGatesOnly(r)
+	r.rule("R16.2", "(shared with C16) a built-in ES* SignDigest that reports success returns the encode helper's result (never an empty signature with a nil error).")
+	checkECDSASignDigestPaths(r, "R16.2")
 	r.rule("R18.1", "(shared with C18) SignMessage.Verify and Signature.Verify write no memory that existed before the call.")
 	for _, tn := range []string{"SignMessage", "Signature"} {
 		fn := P.methodOf(P.mustNamed(tn), "Verify")
